@@ -491,6 +491,13 @@ func Classify(r *Request, c *Config) Verdict {
 		case VersionLeadingZero:
 			v.LineParsed = false
 			open("version with leading zeros")
+		case VersionMajorNotOne:
+			v.LineParsed = false
+			if c.Kind == HTTP {
+				open("HTTP/2+ request given to HTTPUpgrader")
+			} else {
+				wrong(fmt.Sprintf("version %q: the major number is not 1", r.Version), 400, 505)
+			}
 		case VersionHuge:
 			v.LineParsed = false
 			open("version number of more than 9 digits")
